@@ -351,6 +351,9 @@ def _cmp(op, left, right):
     if kind == 'ref' and op in ('==', '!='):
         # A reference is its identifier; the display name is a decoration.
         return (left.name == right.name) == (op == '==')
+    if kind == 'xstr' and left.encoding != right.encoding:
+        # An XStr is its type name and its payload: Foo("x") is not Bar("x").
+        return op == '!='
     if kind == 'number':
         lunit = left.unit if isinstance(left, Quantity) else None
         runit = right.unit if isinstance(right, Quantity) else None
